@@ -13,7 +13,7 @@
      ("section" section) -> (#bytes wf model_entries spec_entries model_tables spec_tables domains)
      ("parse" eh le asize addr #bytes) -> (model_entries model_tables)
      ("table" caf daf (cie instr...) "cie") / (... loc (fde instr...)) ->
-                            (model_table spec_table domain)
+                            (model_table spec_table domain raw_cie_instrs raw_fde_instrs)
      ("instrs" le asize (instr...)) -> (#bytes wf model_split spec_split) *)
 From PV Require Import Base.Outcome Spec.C06View.
 Open Scope string_scope.
@@ -216,12 +216,15 @@ Definition op_table (l : list sx) : sx :=
   | SS _ =>
       SL [sx_res sx_decoded (decode_cie caf daf (map to_raw cis));
           sx_opt sx_table (cfi_spec_cie caf daf cis);
-          sx_bool (cie_domain caf daf cis)]
+          sx_bool (cie_domain caf daf cis);
+          SL (map (fun i => sx_instr (to_raw i)) cis); SL []]
   | loc =>
       let fis := g_instrs (nthx 5 l) in
       SL [sx_res sx_decoded (decode_fde caf daf (map to_raw cis) (gI loc) (map to_raw fis));
           sx_opt sx_table (cfi_spec_fde caf daf cis (gI loc) fis);
-          sx_bool (fde_domain caf daf cis (gI loc) fis)]
+          sx_bool (fde_domain caf daf cis (gI loc) fis);
+          SL (map (fun i => sx_instr (to_raw i)) cis);
+          SL (map (fun i => sx_instr (to_raw i)) fis)]
   end.
 
 Definition op_instrs (l : list sx) : sx :=
